@@ -1,6 +1,10 @@
 (* C36 — executable model of pkg/tbtc/heartbeat.go: heartbeatAction.execute and the
-   heartbeatFailureCounter shared by all wallets of a node.  Wallets are N identifiers,
-   members are N (group.MemberIndex).  One [input] describes what the collaborators of one
+   heartbeatFailureCounter shared by all wallets of a node.  A wallet is identified by its FULL
+   public key: [i_wallet] is the integer value of the 65 bytes 04‖X‖Y that execute() derives
+   with marshalPublicKey (hex-encoded, this is the key of the counter map), so two wallets are
+   the same wallet iff ALL bytes of their keys agree — however much the keys resemble each
+   other (P and −P share X, P and λP share Y, ground keys share prefixes).  Members are N
+   (group.MemberIndex).  One [input] describes what the collaborators of one
    execute() call answer (chain, signing executor, inactivity-claim executor); the model says
    what execute() does with it.  The three thresholds are parameters of the Section; the
    [Concrete] module instantiates them with the constants regenerated from /repo. *)
@@ -17,7 +21,7 @@ Inductive stake := StErr | StUnreg | StEligErr | StZero | StPos.
 Inductive signres := SgErr | SgOk (active : Z) (inactive : list N).
 
 Record input := {
-  i_wallet : N;
+  i_wallet : N;            (* the wallet's full uncompressed public key 04‖X‖Y as an integer *)
   i_stake : stake;
   i_valid : bool;          (* chain.ValidateHeartbeatProposal returns nil *)
   i_expiry : Z;            (* expiryBlock of the action *)
@@ -36,6 +40,7 @@ Record output := {
   o_count : Z                            (* failureCounter.get(wallet) after execute() *)
 }.
 
+(* heartbeatFailureCounter.counters: a map from the full key to the run length (absent = 0) *)
 Definition upd (st : N -> Z) (w : N) (c : Z) : N -> Z :=
   fun x => if N.eqb x w then c else st x.
 
